@@ -6,6 +6,7 @@ import (
 	"sort"
 	"strings"
 	"sync"
+	"sync/atomic"
 
 	inhouse "verif/harness/cmd/mvh/inhouse/common"
 
@@ -280,6 +281,38 @@ func cmdC17(o opts) {
 		return
 	}
 
+	// the shipped dialects are package variables shared by every node, reader and log of a process: the very first
+	// initialisations of one such value come from four goroutines at the same instant, each into its own ReadWriter
+	// (Initialize only reads the dialect) - every one of them succeeds, and the dialect is what it was (the records of
+	// every shipped dialect below look at all of it)
+	for _, nd := range shipped {
+		if nd.Name != "common" && nd.Name != "ardupilotmega" && nd.Name != "all" && nd.Name != "development" {
+			continue
+		}
+		var defs []DefJ
+		for _, m := range nd.D.Messages {
+			defs = append(defs, defOf(m))
+		}
+		type res struct{ ok, pan bool }
+		out := make([]res, 4)
+		var wg sync.WaitGroup
+		var ready int32
+		for g := range out {
+			wg.Add(1)
+			go func(g int) {
+				defer wg.Done()
+				atomic.AddInt32(&ready, 1)
+				for atomic.LoadInt32(&ready) < int32(len(out)) {
+				}
+				_, out[g].ok, out[g].pan = safeDialectInit(nd.D)
+			}(g)
+		}
+		wg.Wait()
+		for g := range out {
+			rec.Put(M{"e": "DINIT", "case": "first_initialisations_of_shipped_" + nd.Name + "_at_once", "goroutine": g, "defs": defs,
+				"init_ok": out[g].ok, "panic": out[g].pan})
+		}
+	}
 	// every shipped dialect
 	for _, nd := range shipped {
 		dialectRecord(rec, nd.Name, nd.D, ix)
